@@ -39,6 +39,8 @@ def criterion_tied(kind, y0, w, p, la, lb):
     if kind in ("v", "vlc"):
         grid = LL if kind == "v" else np.arange(0, 3.2, 0.2)
         v, lamids, _, _ = vcurve(y0, w, grid, p)
+        if not np.all(np.isfinite(v)):
+            return True      # perfect fit / zero roughness on the grid (log 0): the criterion is degenerate, outside the claim
         ia, ib = (int(np.argmin(np.abs(10 ** lamids - x))) for x in (la, lb))
         return abs(v[ia] - v[ib]) <= 1e-7 * max(1.0, abs(v[ia]))
     sc = gcv_scores(y0, w, LLG)
@@ -73,7 +75,7 @@ def check(name, y, miss, rep):
     out, lopt = fn(yy, nd)
     lam = float(lopt)
     # ---- offset
-    for c in (7, -250, 1000):
+    for c in (7, -250, 1000, 5000, 8000):
         if np.abs(y[~miss] + c).max() > 10000 or (y[~miss] + c).min() < -2900:
             continue
         case = dict(base_case, c=c)
@@ -127,6 +129,10 @@ def run(tier, rng, rep):
                 y, miss = gappy_series(rng, n, kind, 0, 9000)
                 for name in VARIANTS:
                     check(name, y, miss, rep)
+                if kind in ("random", "runs"):
+                    y, miss = gappy_series(rng, n, kind, -2500, 2500)     # signed data: the fitted curve is negative at some gaps
+                    for name in VARIANTS:
+                        check(name, y, miss, rep)
         for (a, b) in ((100, 8), (9000, -13), (0, 0), (5, 1)):
             if abs(a + b * (n - 1)) > 10000 or a + b * (n - 1) < -2900:
                 continue
